@@ -99,7 +99,7 @@ def _check_sig(R, repo, rel, cn, method, spec):
         raise AnalysisError(f'no reference signature for {key} (resolved from {cn}); add it to sa/specs after reading the code')
     exp = spec[key]
     found_lines = sig.select(sw.TRACKED)
-    found = [l.text() for l in found_lines] + ['RETURN ' + x for x in sw.return_exprs(fn, sig)]
+    found = [l.text() for l in found_lines] + _call_lines(sig) + ['RETURN ' + x for x in sw.return_exprs(fn, sig)]
     missing, extra = compare([_T(t) for t in found], exp['lines'], exp.get('alts'))
     construct = f'{key} :: normal-form signature'
     if missing or extra:
@@ -113,13 +113,24 @@ def _check_sig(R, repo, rel, cn, method, spec):
     for e, al in (exp.get('alts') or {}).items():
         for a in al:
             alt_back[a] = e
-    fseq = [alt_back.get(t, t) for t in found if not t.startswith('RETURN')]
-    eseq = [t for t in exp['lines'] if not t.startswith('RETURN')]
+    fseq = [alt_back.get(t, t) for t in found if not t.startswith(('RETURN', 'CALL'))]
+    eseq = [t for t in exp['lines'] if not t.startswith(('RETURN', 'CALL'))]
     df, de = _deps(fseq), _deps(eseq)
     if df != de:
         R.bad(f'{key} :: data-dependency order', w, expected=sorted(de - df)[:4], found=sorted(df - de)[:4])
         return
     R.ok(construct, w, found=f'{len(found)} normal-form lines equal the reference; {len(de)} ordered dependencies equal')
+
+
+def _call_lines(sig):
+    """delegations that carry part of the algebra: super().<method>() and self.communicate_*() calls, with their guards"""
+    from ..norm import guards_nnf
+    out = []
+    for canon, loops, guards, st, call in sig.N.calls:
+        if canon.startswith('super().') and not canon.startswith('super().__init__') or canon.startswith('self.communicate_'):
+            g = repr(guards_nnf(guards)) if guards else ''
+            out.append(f'CALL {canon} | {", ".join(map(repr, loops))} | {g}')
+    return out
 
 
 class _T:
